@@ -27,8 +27,11 @@ def main():
     if qual.startswith('lemma:'):
         prove_lemmas(ip, r.specs, {qual[6:]})
     else:
-        u = [u for u in chk.units if u.contract.qual == qual][0]
-        print(verify_function(ip, u.contract))
+        us = [u for u in chk.units if u.contract.qual == qual]
+        if '--unit' in sys.argv:
+            us = [us[int(sys.argv[sys.argv.index('--unit') + 1])]]
+        for u in us:
+            print(verify_function(ip, u.contract))
     obls = [o for o in ip.obls if sub in o.name]
     discharge(obls, r.specs, ip, keep='/tmp/pyvc_debug', timeout=timeout)
     for i, o in enumerate(obls):
